@@ -6,6 +6,50 @@ from harness.c02 import patterns, wrapper_history_pass
 UNARY = ['neg', 'reverse', 'involute', 'conjugate']
 
 
+def registered_linear_pass(ctx):
+    """sums, differences, negation and the involutions inside registered functions (both compilation routes), with a plain number on
+    either side, against the same function applied directly"""
+    from fractions import Fraction
+    from kingdon import MultiVector
+    rng = ctx.rng
+    def f_nl(x): return 3 - x
+    def f_nr(x): return x - 3
+    def f_al(x): return 3 + x
+    def f_ar(x): return x + 3
+    def f_neg(x): return -x - (2 - ~x)
+    def f_two(x, y): return (5 - x) + (y - 2) - (x - y)
+    def f_inv(x): return 1 - x.involute() + (7 - x.conjugate())
+    funcs = [('3 - x', f_nl, 1), ('x - 3', f_nr, 1), ('3 + x', f_al, 1), ('x + 3', f_ar, 1), ('-x - (2 - ~x)', f_neg, 1),
+             ('(5 - x) + (y - 2) - (x - y)', f_two, 2), ('1 - x.involute() + (7 - x.conjugate())', f_inv, 1)]
+    for sig in ([1, 1, 1], [0, 1, 1], [1, -1, 1, 1]):
+        alg = make_algebra(sig)
+        N = 2 ** alg.d
+        for nm, f, ar in funcs:
+            for symbolic in (False, True):
+                try:
+                    rf = alg.register(symbolic=True)(f) if symbolic else alg.register(f)
+                except Exception as e:
+                    ctx.violation('register-raises', {'sig': sig, 'function': nm, 'symbolic': symbolic}, 'a registered function', repr(e)[:200], key='registered:raises')
+                    continue
+                for _ in range(3):
+                    args = []
+                    for _a in range(ar):
+                        ks = rng.sample(range(N), rng.randint(1, min(N, 4)))
+                        if rng.random() < 0.5 and 0 not in ks:
+                            ks[0] = 0
+                        args.append(MultiVector.fromkeysvalues(alg, tuple(ks), [Fraction(rng.randint(1, 9)) for _ in ks]))
+                    case = {'sig': sig, 'function': nm, 'symbolic_route': symbolic, 'keys': [list(a.keys()) for a in args]}
+                    ctx.case(case, tag='registered-linear')
+                    exp = mv_to_dict(f(*args))
+                    try:
+                        got = mv_to_dict(rf(*args))
+                    except Exception as e:
+                        ctx.violation('registered-raises', case, str(exp)[:200], repr(e)[:200], key='registered:linear:raises')
+                        continue
+                    if got != exp:
+                        ctx.violation('registered-differs', case, str(exp)[:200], str(got)[:200], key='registered:linear:' + ('symbolic' if symbolic else 'tape'))
+
+
 def run(ctx):
     ctx.rule = ('add/sub on ordered key-tuple pairs (disjoint, overlapping, empty, permuted); neg and the three involutions and '
                 'grade(*gs) on key tuples incl. every pure grade in every dimension d<=8; all compared as polynomial maps with '
@@ -82,3 +126,4 @@ def run(ctx):
                         ctx.violation('identity', {**case, 'f': nm}, 'f(xy) == f(y)f(x) resp. f(x)f(y)', [canon_dict(l), canon_dict(r)], key=f'{nm}:automorphism')
     R.flush()
     wrapper_history_pass(ctx, ['add', 'sub'])
+    registered_linear_pass(ctx)
